@@ -265,4 +265,21 @@ def explore(ctx):
                              'payload': {'query': q, 'input_lines': [l.decode('latin-1') for l in good[:pos] + [bad] + good[pos:]], 'note': 'the odd line holds the bytes E9 FF FE (shown here as latin-1)'}})
             break
     cov['non_utf8_line_positions'] = raw_checked
+    # min / max of integers that round to the SAME double (neighbours beyond 2^53), in every arrival order: an accumulator
+    # that compares through f64 keeps whichever came first
+    for base in (2 ** 53, 2 ** 60, -(2 ** 53) - 2, 2 ** 62):
+        trio = [base, base + 1, base + 2]
+        for perm in itertools.permutations(trio):
+            inp = ''.join(json.dumps({'v': v, 'k': 'g'}) + '\n' for v in perm)
+            q = '* | json | min(v) as lo, max(v) as hi by k'
+            o = aglib.run_impl_one(q, inp.encode(), 'json')
+            cov['evaluations'] += 1
+            try:
+                row = json.loads(o['out'].decode())[0]
+            except (ValueError, IndexError):
+                row = None
+            if not row or row.get('lo') != min(trio) or row.get('hi') != max(trio):
+                failures.append({'kind': 'spec', 'what': 'min/max of %r in arrival order %r: %r, expected lo=%d hi=%d' % (trio, list(perm), row, min(trio), max(trio)),
+                                 'payload': {'query': q, 'input_lines': inp.split('\n')[:-1], 'mode': 'json'}})
+                break
     return {'coverage': cov, 'failures': failures, 'known_lines': known_lines}
